@@ -12,7 +12,7 @@ from instr import core, diskcache
 ID = 'C16'
 COQ_PROP = 'C16'
 LEVEL = 'proof'
-TRANSLATE = ['argskey', 'disk']     # disk: Disk.store / Disk.fetch decide how a result is kept (raw number, text, bytes, pickle)
+TRANSLATE = ['argskey', 'disk', 'django', 'fanout', 'sql', 'recipes']     # disk: Disk.store / Disk.fetch decide how a result is kept (raw number, text, bytes, pickle)
 TRUSTED = [
     'model of cache-key identity: two key tuples address one entry iff their elements are equal including type (what Disk.put does by pickling); checked against Disk.put on every enumerated pair',
     'the abstract store of model/Memo.v stands for Cache.get/set (C03)',
@@ -23,6 +23,8 @@ ASSUMPTIONS = [
     '"exactly what the function returns" is decided as: same type (not merely ==), same repr, equal, member by member inside tuples/lists/dicts; '
     'results are picklable values (None, bool, int, IntEnum / int-subclass / float-subclass instances, 0.0 and -0.0, inf, big ints, str, bytes, containers of these)',
     'no other writer stores under the memo keys',
+    'expiry times and clock values are multiples of 2**-10 s (exact in binary64), so "inside the expiry time" is decided without rounding; the wrapped '
+    'function takes no virtual time (memoize_stampede measures a duration of 0 and never recomputes early in these runs)',
     'lock contention: the other client only HOLDS the write lock (BEGIN IMMEDIATE ... COMMIT without writing) and lets go after finitely many failed attempts of the caller; '
     'the retry loop of Cache._transact does not sleep (each failed BEGIN waits the SQLite busy timeout in real time, 2 ms here), so the virtual clock does not advance while waiting',
 ]
@@ -317,6 +319,113 @@ def zero_expiry(ctx, res):
                         close()
                     for sig, text in bad[:1]:
                         res.violations.append(fw.Violation(sig, '%s memoizer: %s' % (kind, text), {'check': 'zero_expiry', 'kind': kind, 'typed': typed, 'expire': expire}))
+
+
+# ---------------------------------------------------------------------------
+# expiry times that are not whole seconds
+
+
+TICK = 2.0 ** -10
+FRACTIONAL_EXPIRIES = [0.5, 0.25, 2.5, 1.75, 10.125, 299.5, TICK, 1 + TICK]      # seconds, on the 2**-10 grid (exact in binary)
+FRACTIONAL_KINDS = ['cache', 'fanout', 'django', 'stampede', 'stampede-fanout']   # every memoizer that takes an expiry (Index.memoize has none)
+FRACTIONAL_CALLS = [((1,), {}), ((2,), {'scale': 3})]
+
+
+def make_expiring(kind, d, clock):
+    """make_target, plus memoize_stampede over a FanoutCache"""
+    if kind == 'stampede-fanout':
+        c = diskcache.FanoutCache(d, shards=3)
+        return (lambda expire, typed, ign: diskcache.memoize_stampede(c, expire, name='f', typed=typed, ignore=ign)), (lambda: len(c)), c.close
+    return make_target(kind, d, clock)
+
+
+def inside_offsets(expire):
+    """ages strictly inside the stated lifetime, on the clock grid: the same instant, half-way, three quarters, one tick before the end"""
+    out = {0.0, expire - TICK}
+    for x in (expire / 2, expire * 3 / 4, float(int(expire)), int(expire) + TICK):
+        if instr.grid(x):
+            out.add(x)
+    return sorted(x for x in out if 0 <= x < expire)
+
+
+def run_fractional_expiry(res, clock, fac, kind, typed, expire, start=1000.0):
+    """One decorated function with the expiry time `expire` (seconds, not a whole number).  For each call signature: the first call
+    at time t runs the function; a repeated call at every probed age strictly below `expire` is served from the cache (the function
+    body does not run) and returns what the function returns; a repeated call one tick after t + expire runs the function again."""
+    ran = {'n': 0}
+
+    def raw(i, scale=1):
+        ran['n'] += 1
+        return ('result', i, scale)
+    f = fac(expire, typed, ())(raw)
+    bad = []
+    for n, (a, kw) in enumerate(FRACTIONAL_CALLS):
+        t0 = start + 1000 * n
+        want = raw(*a, **kw)
+        clock.set(t0)
+        before = ran['n']
+        got = f(*a, **kw)
+        res.count(['fractional', kind, typed, expire, repr(a), repr(kw), 'first'], nontrivial=True)
+        if ran['n'] == before:
+            bad.append(('phantom_hit', 0.0, 'the first call f%r did not run the function' % ((a, kw),)))
+            break
+        if not same_result(got, want):
+            bad.append(('result_altered:first_call', 0.0, 'the first call f%r returned %s' % ((a, kw), describe(got))))
+            break
+        for age in inside_offsets(expire):
+            clock.set(t0 + age)
+            before = ran['n']
+            got = f(*a, **kw)
+            res.count(['fractional', kind, typed, expire, repr(a), repr(kw), age], nontrivial=True)
+            if ran['n'] > before:
+                bad.append(('repeat_recomputed:fractional_expiry', age,
+                            'f%r was computed at t=%r with an expiry time of %r s; the repeated call %r s later (inside the expiry time) ran the '
+                            'function again' % ((a, kw), t0, expire, age)))
+                break
+            if not same_result(got, want):
+                bad.append(('result_altered:cached_hit', age, 'the repeated call f%r %r s after the first returned %s, the function returns %s' % (
+                    (a, kw), age, describe(got), describe(want))))
+                break
+        if bad:
+            break
+        clock.set(t0 + expire + TICK)
+        before = ran['n']
+        got = f(*a, **kw)
+        res.count(['fractional', kind, typed, expire, repr(a), repr(kw), 'after'], nontrivial=True)
+        if ran['n'] == before:
+            bad.append(('served_after_expiry', expire + TICK,
+                        'f%r was computed at t=%r with an expiry time of %r s; the call %r s later (after the expiry time) was still served '
+                        'from the cache' % ((a, kw), t0, expire, expire + TICK)))
+            break
+    return bad
+
+
+def fractional_expiry(ctx, res, expiries=None):
+    """Every memoizer that takes an expiry x typed x expiry times with a fractional part (below one second, n + fraction, one tick)."""
+    clock = instr.Clock(1000.0)
+    found = {}
+    n = 0
+    with instr.Installed(clock):
+        for kind in FRACTIONAL_KINDS:
+            for expire in (expiries or FRACTIONAL_EXPIRIES):
+                for typed in (False, True):
+                    d = ctx.scratch('c16f')
+                    fac, _, close = make_expiring(kind, d, clock)
+                    n += 1
+                    try:
+                        bad = run_fractional_expiry(res, clock, fac, kind, typed, expire)
+                    except Exception as e:  # noqa: BLE001
+                        bad = [('fractional_expiry_raised', 0.0, 'a call of the function memoized with an expiry time of %r s raised %r' % (expire, e))]
+                    finally:
+                        close()
+                    for sig, age, text in bad:
+                        found.setdefault((sig, kind), []).append((typed, expire, age, text))
+    for (sig, kind), items in sorted(found.items()):
+        typed, expire, age, text = items[0]
+        res.violations.append(fw.Violation(sig, '%s memoizer, typed=%r: %s (%d configurations of this memoizer fail; expiry times affected: %s)' % (
+            kind, typed, text, len(items), ', '.join(sorted({repr(x[1]) for x in items}))),
+            {'check': 'fractional_expiry', 'kind': kind, 'typed': typed, 'expire': expire, 'age': age}))
+    res.extra['fractional_expiry_functions'] = n
 
 
 # ---------------------------------------------------------------------------
@@ -973,6 +1082,10 @@ def run(ctx):
                 'subclass instances, big ints, str, bytes, tuples/list/dict/frozenset containing them) and compared with type identity (same type, same '
                 'repr, equal, member by member); the whole result alphabet through every memoizer x typed x expire: first call, cached hits, a hit 3 s '
                 'later; expire 0 and -1 on Cache/FanoutCache/DjangoCache: every call runs the function and no entry (inline or file-backed) is left; '
+                'expiry times that are not whole seconds (0.5, 0.25, 2.5, 1.75, 10.125, 299.5, 2**-10, 1 + 2**-10 s) on every memoizer that takes one '
+                '(Cache / FanoutCache .memoize expire, DjangoCache.memoize timeout, memoize_stampede expire on a Cache and on a FanoutCache) x typed: '
+                'a repeated call at every probed age strictly inside the stated time (same instant, half, three quarters, the whole seconds below it, one '
+                'tick before the end) is served without running the function, the call one tick after it runs the function again; '
                 'ignored arguments: on every memoizer x typed x the 4 non-empty ignore sets, base calls (arity <= 2 over {1, "a", None}, 4 keyword sets) followed by '
                 'their variants in ignored positions / keyword names (other value and type, present / absent) and the base again: once the function has run '
                 'for some visible arguments no further call with those visible arguments runs it, and each returns its result (wrapper histories decide '
@@ -985,6 +1098,7 @@ def run(ctx):
         correspondence(ctx, res, cc, 1200)
         result_identity(ctx, res)
         zero_expiry(ctx, res)
+        fractional_expiry(ctx, res)
         wrapper_runs(ctx, res, 25, 30)
         ignored_arguments(ctx, res, 12)
         lock_contention(ctx, res, 1)
@@ -993,6 +1107,7 @@ def run(ctx):
         correspondence(ctx, res, cc, 6000)
         result_identity(ctx, res)
         zero_expiry(ctx, res)
+        fractional_expiry(ctx, res)
         wrapper_runs(ctx, res, 150, 60)
         ignored_arguments(ctx, res, len(IGN_BASES))
         lock_contention(ctx, res, len(CONTENTION_CALLS))
@@ -1009,6 +1124,7 @@ def search(ctx, broken):
     enumerate_keys(ctx, res, 3, 2)
     result_identity(ctx, res)
     zero_expiry(ctx, res)
+    fractional_expiry(ctx, res)
     wrapper_runs(ctx, res, 60, 40)
     ignored_arguments(ctx, res, len(IGN_BASES))
     lock_contention(ctx, res, 2)
@@ -1053,6 +1169,24 @@ def replay(payload):
             for sig, i, text in bad:
                 print('MONITOR %s: %s' % (sig, text))
             print('result %s through %s: %s' % (case['result'], case['kind'], 'returned unchanged' if not bad else 'NOT returned unchanged'))
+            return not bad
+        finally:
+            shutil.rmtree(d, ignore_errors=True)
+    if case.get('check') == 'fractional_expiry':
+        import tempfile, shutil
+        d = tempfile.mkdtemp(prefix='c16r-')
+        clock = instr.Clock(1000.0)
+        try:
+            with instr.Installed(clock):
+                fac, _, close = make_expiring(case['kind'], os.path.join(d, 'c'), clock)
+                try:
+                    bad = run_fractional_expiry(fw.Result(), clock, fac, case['kind'], case['typed'], case['expire'])
+                finally:
+                    close()
+            for sig, age, text in bad:
+                print('MONITOR %s: %s' % (sig, text))
+            print('%s memoizer, expiry time %r s: %s' % (case['kind'], case['expire'],
+                                                         'repeated calls inside it served from the cache, recomputed after it' if not bad else 'NOT honoured'))
             return not bad
         finally:
             shutil.rmtree(d, ignore_errors=True)
